@@ -327,6 +327,9 @@ func __fresh[T any](p *T) bool                   { return true }
 func __havoc[T any]() T                          { var z T; return z }
 func __mapEq[K comparable, V comparable](a, b map[K]V) bool { return true }
 func __sameElems[T any](a, b []T) bool { return true }
+func __sameArray[T any](a, b []T) bool { return true }
+func __nilSlice[T any](a []T) bool { return true }
+func __disjoint[T any](a, b []T) bool { return true }
 `
 
 // Generate produces the ghost Go source for a package overlay.
@@ -472,7 +475,7 @@ func splitTop(s string, sep byte) []string {
 
 var (
 	oldRe    = regexp.MustCompile(`\bold\(`)
-	forallRe = regexp.MustCompile(`\b(forall|forall2|forall3|exists|exists2|ite|visited|sentN|sentAt|recvN|recvAt|closed|held|rheld|fresh|mapEq|sameElems|logN|logAt\[[A-Za-z0-9_.*\[\]]+\])\(`)
+	forallRe = regexp.MustCompile(`\b(forall|forall2|forall3|exists|exists2|ite|visited|sentN|sentAt|recvN|recvAt|closed|held|rheld|fresh|mapEq|sameElems|sameArray|nilSlice|disjoint|logN|logAt\[[A-Za-z0-9_.*\[\]]+\])\(`)
 	assertRe = regexp.MustCompile(`\bassert\(`)
 )
 
